@@ -865,15 +865,12 @@ func (p *sshFxpReadPacket) getDataSlice(alloc *allocator, orderID uint32, maxTxP
 		dataLen = maxTxPacket
 	}
 
-	if alloc != nil {
+	// maxTxPacket may have been raised beyond the page size: such a read is served from a buffer of its own,
+	// so that the reply does not depend on the allocator being in use
+	if alloc != nil && dataLen <= maxMsgLength {
 		// GetPage returns a slice with capacity = maxMsgLength this is enough to avoid new allocations in
 		// sshFxpDataPacket.MarshalBinary
-		page := alloc.GetPage(orderID)
-		if dataLen > uint32(len(page)) {
-			// maxTxPacket may have been raised beyond the page size
-			dataLen = uint32(len(page))
-		}
-		return page[:dataLen]
+		return alloc.GetPage(orderID)[:dataLen]
 	}
 
 	// allocate with extra space for the header
